@@ -720,8 +720,19 @@ static std::string run_cmd(const std::vector<std::string>& a) {
         upa::url_search_params* p = nullptr;
         if (linked) {
             g_sp[s] = &U(s).search_params(); p = g_sp[s];
-            // the list of an invalid owner is outside every property: not exercised, not compared
-            if (!U(s).is_valid()) return "sp valid=0 skipped";
+            // The list of an INVALID owner is not compared (no property speaks about it), but the operation is
+            // still performed on the real object: whatever it leaves in the list must be gone once the owner
+            // becomes valid again (parse, href setter, assignment), which the later state lines check.
+            if (!U(s).is_valid()) {
+                try {
+                    if (op == "append" && a.size() > 3) { Tok n, v; if (parse_tok(a[2], n) && parse_tok(a[3], v)) WITH_STR2(n, v, S1, S2, p->append(S1, S2)); }
+                    else if (op == "set" && a.size() > 3) { Tok n, v; if (parse_tok(a[2], n) && parse_tok(a[3], v)) WITH_STR2(n, v, S1, S2, p->set(S1, S2)); }
+                    else if (op == "parse" && a.size() > 2) { Tok n; if (parse_tok(a[2], n)) WITH_STR(n, S, p->parse(S)); }
+                    else if (op == "sort") p->sort();
+                    else if (op == "clear") p->clear();
+                } catch (const std::exception&) { return "sp valid=0 EXC"; }
+                return "sp valid=0 skipped";
+            }
         }
         else {
             if (op == "new") { need(2); Tok t; if (!parse_tok(a[2], t)) return "ERR"; WITH_STR(t, S, g_usp[s].reset(new upa::url_search_params(S))); return "usp " + usp_state(*g_usp[s]); }
